@@ -209,7 +209,7 @@ CON_ASSUMPTIONS = COMMON_ASSUMPTIONS + [
 
 def plan_c02(pid, tier, seed, ncpu):
     progs = scale(tier, 6400, 160000)
-    stress = scale(tier, 1600, 48000)
+    stress = scale(tier, 800, 48000)
 
     def jobs(bindirs, workdir, known):
         js = con_jobs(bindirs["dbg"], workdir, known, pid, "baton", seed, max(1, ncpu * 3 // 4), programs=progs, schedules=scale(tier, 20, 50))
